@@ -24,7 +24,7 @@ import (
 func init() { register("MapRanges", genMapRanges) }
 
 var mapRangeScope = []string{
-	"./pkg/core",            // only blockchain.go is kept (see below)
+	"./pkg/core", // only blockchain.go is kept (see below)
 	"./pkg/core/native",
 	"./pkg/core/interop/...",
 	"./pkg/core/dao",
